@@ -14,6 +14,7 @@ import (
 
 	"verif/checks/mountlib"
 	"verif/mc"
+	"verif/mc/racepass"
 
 	"github.com/chrislusf/seaweedfs/weed/wdclient"
 )
@@ -31,6 +32,8 @@ func Main() {
 		}
 		if r.ChildPhase() == "" {
 			Histories(r)
+			// torn entries are data races at heart: free-running -race pass of lookups against updates (DESIGN.md 2.4)
+			racepass.Run(r, "vidmap", r.Pick(3, 20), "wdclient")
 		}
 		// the concurrent-schedules half runs inside the sched group binary (overlay build)
 		r.WorkerProcs = 1
